@@ -64,6 +64,12 @@ CHECKS = {
    note='Trusted: snapshot code reading Context._data/_functions/_exclusive_funcs; aliasing only asserted for converted results; random() seeded, now()/localtz() excluded. Cross-run state (caches) is replayed through the process-history prelude.',
    technique='deterministic simulation of a host evaluation history with injected aborts (failing stream, raising host function, limit/quota trip, abandoned lazy result), deep-snapshot invariants after every step, history-independence oracle, shrinking + replay',
    quick_timeout=900, thorough_timeout=21600),
+ 'C18': dict(
+   category='exploration', design_ref='DESIGN.md 3.7',
+   text='Seeded search over schedules at line granularity: 2-4 simulated host threads evaluate 1-3 (statement, document) pairs each, on one engine, each in its own child of one shared prepared context (one flavour goes through yaql.eval and its module-level caches). Statements: ~90 hand-written pipelines building stateful lazies (orderBy/thenBy, groupBy aggregators, memorize, join, def/let chains, regex, datetimes with offsets), the C09 statements, 740 harvested test expressions, introspective library calls; same or different statements per thread, equal or per-thread documents. The baton scheduler pre-empts between any two Python lines of yaql frames and at stream pulls, under three policies: random quanta (mean 3..3000 lines), PCT-style d switch points sized from the measured sequential run, and write-point targeting (switch right after a statically detected store into an attribute/subscript/global or a mutator call, sites weighted by rarity). Oracle: every result equals the run-alone result computed before the threads start; shared context chain snapshot unchanged. Mismatches are confirmed by re-running the recorded schedule.',
+   note='Trusted: baton scheduler and sys.settrace delivery; canonical overload-set order via simulator-assigned FunctionDefinition hashes; cyclic GC disabled inside a run; pre-emption only between Python lines of yaql frames (dependencies run atomically).',
+   technique='deterministic simulation: seeded baton scheduler over real threads with sys.settrace line-level pre-emption (random / PCT / write-point policies), run-alone oracle + shared-context snapshot, schedule shrinking + replay',
+   quick_timeout=1200, thorough_timeout=21600),
 }
 
 
